@@ -234,6 +234,25 @@ class Cluster:
         self.universe = list(self.raw)
         return self
 
+    @classmethod
+    def bare_from(cls, other, names, edges=()):
+        """A fresh TypeSystem() that knows the classes `names` of cluster `other` and the given edges
+        (inserted in the given order); nothing has been asked of it yet."""
+        from pynguin.analyses.typesystem import TypeSystem
+
+        self = cls.__new__(cls)
+        self.modname, self.src, self.cluster, self.module = None, other.src, None, None
+        self.ts = TypeSystem()
+        self.class_names = list(other.class_names)
+        self.raw = dict(other.raw)
+        self.info = {}
+        for n in names:
+            self.info[n] = self.ts.to_type_info(other.info[n].raw_type)
+        self.universe = list(other.universe)
+        for a, b in edges:
+            self.ts.add_subclass_edge(super_class=self.info[a], sub_class=self.info[b])
+        return self
+
     def close(self):
         if self.modname:
             sys.modules.pop(self.modname, None)
